@@ -158,7 +158,7 @@ func racyOn(trace []string, fam string) bool {
 func genSched(tier string, emit func(string)) {
 	n := 7
 	if tier == "thorough" {
-		n = 10
+		n = 9
 	}
 	fam := []string{
 		// node 1 registers the reconnected client while node 0 cleans the old connection up
